@@ -156,7 +156,15 @@ impl Search {
             self.log_uci_info(depth, Some(start.elapsed().as_millis()), &pv);
         }
 
-        self.log(format!("bestmove {}", self.info.best_move.unwrap()).as_str());
+        if self.info.best_move.is_none() {
+            // The search was cut short before the first iteration completed: fall back to any legal move
+            self.info.best_move = self.original_board.get_legal_moves().first().copied();
+        }
+
+        match self.info.best_move {
+            Some(best_move) => self.log(format!("bestmove {best_move}").as_str()),
+            None => self.log("bestmove 0000"),
+        }
     }
 
     /// Initializes the alpha-beta search and returns the best move found
